@@ -35,12 +35,12 @@ Proof. exact (engines_no_conflict rule cval content compile progs progs_allowed 
    other goroutines interleave; a cache lookup returns nothing or the rule of the lists; a preparation returns
    the compilation of that rule's pattern *)
 Theorem C14_load : forall t i o, In (T_load rule cval content i, o) (hist (th s t)) ->
-  o = [OUnit rule cval; ORule rule cval (content (fst i) (snd i))].
+  o = [OUnit; ORule (content (fst i) (snd i))].
 Proof. exact (load_returns_content rule cval content compile progs progs_allowed c0 c0_good sched). Qed.
 Theorem C14_lookup : forall t i o, In (T_lookup rule cval i, o) (hist (th s t)) ->
-  o = [ORule rule cval None] \/ exists r, o = [ORule rule cval (Some r)] /\ content (fst i) (snd i) = Some r.
+  o = [ORule None] \/ exists r, o = [ORule (Some r)] /\ content (fst i) (snd i) = Some r.
 Proof. exact (lookup_returns_content rule cval content compile progs progs_allowed c0 c0_good sched). Qed.
-Theorem C14_prepare : forall t r o, In (T_prepare rule cval compile r, o) (hist (th s t)) -> o = [OVal rule cval (compile r)].
+Theorem C14_prepare : forall t r o, In (T_prepare rule cval compile r, o) (hist (th s t)) -> o = [OVal (compile r)].
 Proof. exact (prepare_returns_compile rule cval content compile progs progs_allowed c0 c0_good sched). Qed.
 Theorem C14_cache_within_lists : writer s LCache = None -> EGood rule cval content compile LCache (comp s LCache).
 Proof. exact (cache_within_lists rule cval content compile progs progs_allowed c0 c0_good sched). Qed.
